@@ -52,6 +52,13 @@ fn lattice(_tier: Tier, channels: &[usize]) -> Vec<Cfg> {
         v.push(Cfg::fft(Kind::XI, 3, 2, 10, 2).with_channels(n));
         v.push(Cfg::fft(Kind::XI, 147, 160, 100, 1).with_channels(n));
         v.push(Cfg::fft(Kind::XO, 2, 3, 10, 2).with_channels(n));
+        // block sizes whose forward FFT works in place on its input buffer (10, 20, 30, 40)
+        if n >= 2 {
+            v.push(Cfg::fft(Kind::XX, 1, 2, 10, 1).with_channels(n));
+            v.push(Cfg::fft(Kind::XI, 1, 2, 20, 1).with_channels(n));
+            v.push(Cfg::fft(Kind::XX, 3, 1, 30, 1).with_channels(n));
+            v.push(Cfg::fft(Kind::XO, 1, 1, 40, 1).with_channels(n));
+        }
         if !q {
             v.push(Cfg::fft(Kind::XI, 2, 3, 10, 1).with_channels(n));
             v.push(Cfg::fft(Kind::XO, 3, 2, 7, 1).with_channels(n));
@@ -192,6 +199,7 @@ fn c11_one(acc: &mut Acc, cfg: &Cfg, depth: usize, journal: Option<&JournalFile>
     let hs = histories(&alpha, depth);
     let mut single = cfg.clone();
     single.channels = 1;
+    let mut hist_no = 0usize;
     for h in &hs {
         if let Some(j) = journal {
             j.write(&cfg.to_json(), &history_text(h));
@@ -228,6 +236,25 @@ fn c11_one(acc: &mut Acc, cfg: &Cfg, depth: usize, journal: Option<&JournalFile>
             }
         }
         acc.outcomes.push(format!("{}:{}", cfg.kind.name(), multi.last().map(|x| x.0.split('(').next().unwrap_or("").to_string()).unwrap_or_default()));
+        // the same comparison on spectrally trivial signals, a different one in every channel
+        // (click per block, on/off, constant, alternating sign)
+        hist_no += 1;
+        if n >= 2 && (cfg.kind.is_fft() || hist_no % 4 == 0) {
+            let period = if cfg.kind.is_fft() { crate::kf::fft_sizes(cfg).0.max(1) } else { cfg.chunk };
+            let multi_t = trace::<f64>(cfg, Signal::Trivial(0, period), h)?;
+            acc.evals += 1;
+            acc.steps += multi_t.len() as u64;
+            for c in 0..n {
+                let one = trace::<f64>(&single, Signal::Trivial(c, period), h)?;
+                for (i, (m, o)) in multi_t.iter().zip(one.iter()).enumerate() {
+                    if m.0 != o.0 || m.1.get(c).map(|x| x.as_slice()) != o.1.first().map(|x| x.as_slice()) {
+                        acc.fail("C11", cfg, &h[..=i.min(h.len() - 1)], "channel-differs-from-single-channel-twin",
+                            format!("step {}: channel {} of the {}-channel resampler differs from a single-channel resampler fed the same data (spectrally trivial signals: click per block / on-off / constant / alternating sign in channels 0..3)", i, c, n));
+                        break;
+                    }
+                }
+            }
+        }
     }
     // (b) constant masks
     let alpha_m = alphabet(cfg, true);
@@ -388,6 +415,9 @@ impl Check for C11 {
 // ------------------------------------------------------------------------------------------
 
 pub struct C16;
+
+/// Ratios of the chunk-size sweep (decimal fractions that are not exact in binary).
+const SWEEP_RATIOS: [f64; 8] = [0.7, 0.35, 0.9, 1.1, 0.3, 0.6, 1.7, 44100.0 / 48000.0];
 
 fn input_for<T: Flt>(r: &Runner<T>, frames: usize) -> Vec<Vec<T>> {
     (0..r.cfg.channels)
@@ -764,9 +794,38 @@ impl Check for C16 {
         "E1 unmerged: in every state reached by a history up to the depth, wrapper calls and core calls are executed on twins of the real object and compared bit for bit"
     }
     fn n_items(&self, tier: Tier) -> usize {
-        lattice(tier, c16_channels(tier)).len()
+        lattice(tier, c16_channels(tier)).len() + SWEEP_RATIOS.len()
     }
     fn run_item(&self, tier: Tier, idx: usize, journal: Option<&JournalFile>) -> Result<Value, String> {
+        let nl = lattice(tier, c16_channels(tier)).len();
+        if idx >= nl {
+            // numeric coincidences between chunk size and ratio: chunk * ratio (or chunk / ratio)
+            // one unit in the last place away from a whole number, where two ways of rounding a
+            // size differ by a frame. Every chunk size up to the limit, in the fresh state and
+            // after one call.
+            let ratio = SWEEP_RATIOS[idx - nl];
+            let mut acc = Acc::new();
+            let max = if tier == Tier::Quick { 800 } else { 3000 };
+            for chunk in 1..=max {
+                for cfg in [
+                    Cfg::fast(Kind::FI, ratio, 1.5, chunk, Degree::Linear),
+                    Cfg::fast(Kind::FO, ratio, 1.5, chunk, Degree::Linear),
+                    Cfg::sinc(Kind::SI, ratio, 1.5, chunk, 8, 2, Interp::Nearest, Kernel::Scalar),
+                    Cfg::sinc(Kind::SO, ratio, 1.5, chunk, 8, 2, Interp::Nearest, Kernel::Scalar),
+                ] {
+                    if let Some(j) = journal {
+                        j.write(&cfg.to_json(), "");
+                    }
+                    c16_state::<f64>(&mut acc, &cfg, &[])?;
+                    if chunk % 10 == 0 || tier == Tier::Thorough {
+                        c16_state::<f64>(&mut acc, &cfg, &[Op::P])?;
+                        c16_state::<f64>(&mut acc, &cfg, &[Op::R(1.5, true)])?;
+                    }
+                }
+            }
+            acc.samples.push(json!({"sweep": format!("ratio {:?}, chunk 1..={}, four asynchronous types", ratio, max), "per_state": "as for the lattice items"}));
+            return Ok(acc.json(format!("coincidence sweep ratio {:?}", ratio)));
+        }
         let cfg = lattice(tier, c16_channels(tier)).into_iter().nth(idx).ok_or("no item")?;
         let mut acc = Acc::new();
         let depth = if tier == Tier::Quick { 4 } else { 5 };
